@@ -1433,6 +1433,8 @@ def run(ctx):
         specs.append(dict(seed=sd, stream="plain", nvars=10, nsamples=1, nchrom=1, het=0.6, ngroups=2, cov=8, homop=0.0,
                           phi="synthetic", bmode="same", prephase=0.0, foreign=False, params=None, unrec=0.0, extras=False,
                           nomav=False, skew=True, symbolic=1.0))
+    # corpus: haplotag --no-reference with phased symbolic-ALT records in the VCF (found with VERIF_SEED=13)
+    specs.append({'seed': 461647484801, 'stream': 'history', 'nvars': 13, 'nsamples': 2, 'nchrom': 2, 'het': 1.0, 'ngroups': 3, 'cov': 3, 'homop': 0.4, 'phi': 'synthetic', 'bmode': 'same', 'prephase': 0.0, 'foreign': False, 'params': None, 'unrec': 0.0, 'extras': False, 'nomav': False, 'history': 'first', 'names': 'plain', 'rg': 'sample', 'feat': {'pairs': 0, 'bx': 0.3, 'lowq': 0, 'dup': 0, 'edge': 0}, 'edges': False, 'emptychrom': False, 'psids': 'usual', 'deco': False, 'io': {'stdout': True, 'gz': False, 'chromosome': 0, 'haplotag': ['--no-reference']}, 'skew': True, 'symbolic': 1.0, 'missing': 0.0, 'collide': False})
     plan = [("history", ctx.n(3, 40)), ("rawtags", ctx.n(4, 50)), ("twice", ctx.n(2, 25)), ("mav", ctx.n(3, 30)),
             ("plain", ctx.n(14, 200)), ("prephased", ctx.n(12, 160)), ("unrecognised", ctx.n(4, 50)),
             ("bridged", ctx.n(4, 40)), ("noisy", ctx.n(4, 40)), ("params", ctx.n(4, 40)), ("foreign", ctx.n(3, 30))]
